@@ -378,6 +378,22 @@ qb_ipc_auth_creds(struct ipc_auth_data *data)
 			data->ugp.gid = cred.gid;
 			break;
 		}
+#ifdef SO_PEERCRED
+		/*
+		 * SCM_CREDENTIALS filled in by the kernel carries the sender's
+		 * REAL ids; the socket's peer credentials are the effective ones.
+		 */
+		if (res == 0) {
+			socklen_t cred_len = sizeof(cred);
+
+			if (getsockopt(data->sock, SOL_SOCKET, SO_PEERCRED,
+				       &cred, &cred_len) == 0 &&
+			    cred_len == sizeof(cred)) {
+				data->ugp.uid = cred.uid;
+				data->ugp.gid = cred.gid;
+			}
+		}
+#endif
 	}
 #else /* no credentials */
 	data->ugp.pid = 0;
